@@ -22,6 +22,7 @@ RULE = ('(a) unit level: the real DynamicUniverse probed at entry-1min, entry-1u
         'such rebalance onward). Non-trivial: a session in which some asset enters strictly inside the run; distinct = '
         'config signature + entry map.'
         ' Optimisers are also called repeatedly on the same object with the same dict changed in place, and with all-integer weights.')
+RULE += " Unit part: signals built on a StaticUniverse are hand-fed prices (also for a non-member reference asset) and the universe must still yield its configured list. Every sixth session: start and end given as plain dates (00:00), the session's own default data handler, daily rebalance and one asset entering on the last simulated day."
 ASSUMPTIONS = ['UTC timestamps']
 
 
